@@ -37,14 +37,14 @@ Expect(s, ev) ==
          LET rk == IF ev.dec THEN S4!Reverse(s[ev.h].rk) ELSE s[ev.h].rk
              \* cipher.Block: exactly the first block of src is processed into the first block of dst;
              \* whatever else the two slices hold stays (in place: the rest of src; otherwise the 0xA5 fill)
+             \* (what an implementation does with the bytes of dst beyond the first block is not part of the
+             \* property - a longer dst is inside "the byte ranges of its arguments" - so only the block is judged)
              one == S4!CryptWithKeys(rk, SubSeq(ev.src, 1, 16))
-             rest == IF ev.inplace THEN SubSeq(ev.src, 17, Len(ev.src))
-                     ELSE [i \in 1..(Len(ev.out) - 16) |-> 165]
-             exp == one \o rest
+             got == SubSeq(ev.out, 1, 16)
          IN [st |-> s,
-             ok |-> /\ ev.panic = "" /\ ev.out = exp
+             ok |-> /\ ev.panic = "" /\ got = one
                     /\ (ev.inplace \/ ev.src_after = ev.src),
-             why |-> IF ev.out # exp THEN "crypt: block value" ELSE "crypt: source modified / panic"]
+             why |-> IF got # one THEN "crypt: block value" ELSE "crypt: source modified / panic"]
     [] ev.op = "sm4.expandkey" ->
          LET rk == S4!RoundKeys(ev.key)
              e == RKHalves(rk)  d == RKHalves(S4!Reverse(rk))
